@@ -109,6 +109,13 @@ def main(argv):
         return 0
     if cmd == "run":
         n = int(argv[3])
+        try:
+            # a run that needs more than 4 GiB of address space for a few thousand atoms does not "complete"
+            import resource
+            lim = 4 * 1024 ** 3
+            resource.setrlimit(resource.RLIMIT_AS, (lim, lim))
+        except Exception:
+            pass
         t0 = time.time()
         try:
             g = build(name, n)
